@@ -61,37 +61,30 @@ static mut G_CALLS_DA_UPDATE: u32 = 0;
 static mut G_EXEC_SET: u64 = 0;
 static mut G_DA_SET: u64 = 0;
 
+// The ghost values are chosen by the harness BEFORE the call (choose_ghosts); the stubs only hand them out, so a
+// postcondition can mention "the minimum" even on a path where the code forgets to ask for it.
+fn choose_ghosts() {
+    let mc: i128 = kani::any();
+    kani::assume(mc >= 0 && mc <= (u64::MAX / 100) as i128);      // contract of max_change (c34_max_change)
+    let dc: i128 = kani::any();
+    kani::assume(dc >= -mc && dc <= mc);                           // contract of da_change (c34_da_change / Verus)
+    let lo: u64 = kani::any();
+    let hi: u64 = kani::any();
+    kani::assume(hi >= lo);                                        // Verus: lemma_max_scaled_at_least_min_scaled
+    unsafe {
+        G_EXEC_CHANGE = kani::any(); G_EXEC_CHANGE_ARG = 0; G_EXEC_CHANGE_CALLS = 0;
+        G_MAX_CHANGE = mc; G_DA_CHANGE = dc; G_MIN_DA = lo; G_MAX_DA = hi; G_MIN_EXEC = kani::any();
+    }
+}
 fn stub_exec_change(_s: &AlgorithmUpdaterV1, principle: u64) -> u64 {
-    let r: u64 = kani::any();
-    unsafe { G_EXEC_CHANGE = r; G_EXEC_CHANGE_ARG = principle; G_EXEC_CHANGE_CALLS += 1; }
-    r
+    unsafe { G_EXEC_CHANGE_ARG = principle; G_EXEC_CHANGE_CALLS += 1; G_EXEC_CHANGE }
 }
-fn stub_max_change(_s: &AlgorithmUpdaterV1) -> i128 {
-    // contract of max_change proved in c34_max_change: 0 <= r <= u64::MAX/100
-    let r: i128 = kani::any();
-    kani::assume(r >= 0 && r <= (u64::MAX / 100) as i128);
-    unsafe { G_MAX_CHANGE = r; }
-    r
-}
-fn stub_da_change(s: &AlgorithmUpdaterV1, _p: i128, _d: i128) -> i128 {
-    // contract of da_change proved in c34_da_change (Kani) and by Verus on the extracted text: |r| <= max_change()
-    let mc = stub_max_change(s);
-    let r: i128 = kani::any();
-    kani::assume(r >= -mc && r <= mc);
-    unsafe { G_DA_CHANGE = r; }
-    r
-}
+fn stub_max_change(_s: &AlgorithmUpdaterV1) -> i128 { unsafe { G_MAX_CHANGE } }
+fn stub_da_change(_s: &AlgorithmUpdaterV1, _p: i128, _d: i128) -> i128 { unsafe { G_DA_CHANGE } }
 fn stub_pd(_s: &AlgorithmUpdaterV1) -> i128 { kani::any() }
-fn stub_min_da(_s: &AlgorithmUpdaterV1) -> u64 { let r: u64 = kani::any(); unsafe { G_MIN_DA = r; } r }
-fn stub_max_da(_s: &AlgorithmUpdaterV1) -> u64 {
-    // contract proved by Verus on the extracted text (direct.verus.rs: max_scaled_da_gas_price, min_scaled_da_gas_price,
-    // lemma_max_scaled_at_least_min_scaled): max_scaled >= min_scaled
-    let r: u64 = kani::any();
-    kani::assume(r >= unsafe { G_MIN_DA });
-    unsafe { G_MAX_DA = r; }
-    r
-}
-fn stub_min_exec(_s: &AlgorithmUpdaterV1) -> u64 { let r: u64 = kani::any(); unsafe { G_MIN_EXEC = r; } r }
+fn stub_min_da(_s: &AlgorithmUpdaterV1) -> u64 { unsafe { G_MIN_DA } }
+fn stub_max_da(_s: &AlgorithmUpdaterV1) -> u64 { unsafe { G_MAX_DA } }
+fn stub_min_exec(_s: &AlgorithmUpdaterV1) -> u64 { unsafe { G_MIN_EXEC } }
 
 // ---------------------------------------------------------------------------------------------
 // exec_change: r == min(principle * pct, u64::MAX) / 100   (so r <= principle * pct / 100)
@@ -114,6 +107,7 @@ fn c34_exec_change() {
 #[kani::stub(AlgorithmUpdaterV1::exec_change, stub_exec_change)]
 #[kani::stub(AlgorithmUpdaterV1::min_scaled_exec_gas_price, stub_min_exec)]
 fn c34_update_exec_gas_price() {
+    choose_ghosts();
     let mut u = any_updater();
     let used: u64 = kani::any();
     let cap: u64 = kani::any();
@@ -129,6 +123,11 @@ fn c34_update_exec_gas_price() {
     kani::assert(calls == 1 && arg == old, "[C34.gas-v1.update_exec.change-computed-once-from-current-price]");
     let diff = if new >= old { new - old } else { old - new };
     kani::assert(diff <= chg || new == floor, "[C34.gas-v1.update_exec.moves-at-most-the-configured-change-unless-clamped-to-minimum]");
+    // exactness: max(floor, old +/- change) saturating; the direction follows block fullness vs threshold
+    let up = old.saturating_add(chg);
+    let down = old.saturating_sub(chg);
+    kani::assert(new == (if up > floor { up } else { floor }) || new == (if down > floor { down } else { floor }),
+        "[C34.gas-v1.update_exec.is-old-price-plus-or-minus-change-floored-at-minimum]");
     kani::assert(u.new_scaled_da_gas_price == old_da, "[C34.gas-v1.update_exec.frame-da-price-untouched]");
 }
 
@@ -152,6 +151,7 @@ fn c34_max_change() {
 #[kani::proof]
 #[kani::stub(AlgorithmUpdaterV1::max_change, stub_max_change)]
 fn c34_da_change() {
+    choose_ghosts();
     let u = any_updater();
     let p: i128 = kani::any();
     let d: i128 = kani::any();
@@ -166,9 +166,9 @@ fn c34_da_change() {
 #[kani::proof]
 #[kani::stub(AlgorithmUpdaterV1::max_change, stub_max_change)]
 fn c34_da_change_activity() {
+    choose_ghosts();
     let u = any_updater();
     let c: i128 = kani::any();
-    unsafe { G_MAX_CHANGE = 0; }
     let r = u.da_change_accounting_for_activity(c);
     let mc = unsafe { G_MAX_CHANGE };
     kani::cover!(c > 0 && r < 0, "[C34.gas-v1.da_activity.cover-always-decrease]");
@@ -189,6 +189,7 @@ fn c34_da_change_activity() {
 #[kani::stub(AlgorithmUpdaterV1::min_scaled_da_gas_price, stub_min_da)]
 #[kani::stub(AlgorithmUpdaterV1::max_scaled_da_gas_price, stub_max_da)]
 fn c34_update_da_gas_price() {
+    choose_ghosts();
     let mut u = any_updater();
     let old = u.new_scaled_da_gas_price;
     let old_exec = u.new_scaled_exec_price;
@@ -200,6 +201,15 @@ fn c34_update_da_gas_price() {
     kani::assert(new >= lo && new <= hi, "[C34.gas-v1.update_da.stays-between-minimum-and-maximum]");
     let diff = (if new >= old { new - old } else { old - new }) as i128;
     kani::assert(diff <= mc || new == lo || new == hi, "[C34.gas-v1.update_da.moves-at-most-max-change-unless-clamped]");
+    // exactness (clamping never reverses the direction): the new price is clamp(old + c, lo, hi) for the change c that
+    // da_change proposed (dc), possibly replaced by 0 or -max_change by the activity adjustment; a non-positive dc is kept
+    let dc = unsafe { G_DA_CHANGE };
+    let clamp = |c: i128| -> u64 {
+        let ideal = old as i128 + c;
+        let v = if ideal < 0 { 0u64 } else if ideal > u64::MAX as i128 { u64::MAX } else { ideal as u64 };
+        if v < lo { lo } else if v > hi { hi } else { v }
+    };
+    kani::assert(new == clamp(dc) || (dc > 0 && (new == clamp(0) || new == clamp(-mc))), "[C34.gas-v1.update_da.is-old-price-plus-bounded-change-clamped-to-bounds]");
     kani::assert(u.new_scaled_exec_price == old_exec, "[C34.gas-v1.update_da.frame-exec-price-untouched]");
 }
 
@@ -325,6 +335,7 @@ fn c34_activity_update() {
 #[kani::stub(AlgorithmUpdaterV1::exec_change, stub_exec_change)]
 #[kani::stub(AlgorithmUpdaterV1::min_scaled_exec_gas_price, stub_min_exec)]
 fn c34_canary() {
+    choose_ghosts();
     let mut u = any_updater();
     let old = u.new_scaled_exec_price;
     let cap: u64 = kani::any();
